@@ -318,6 +318,11 @@ class Base(object):
         for (a, t, n) in lay.tlvs:
             if t in (tlv.LOCK, tlv.MEM) and n != 3:
                 return None
+            if t not in (tlv.NULL, tlv.TERM) and m[a + 1] == 0xFF and n < 255:
+                return None     # three-octet length format for a short value
+            if t not in (tlv.NULL, tlv.TERM, tlv.LOCK, tlv.MEM, tlv.NDEF,
+                         tlv.PROP):
+                return None     # TLV types the specifications do not define
             heads.update(range(a, a + (1 if t == tlv.NULL else (
                 2 if n < 255 else 4))))
             if t in (tlv.LOCK, tlv.MEM):
